@@ -111,13 +111,48 @@ def run_one(ctx, res, j, xs, bucket=None):
                                        case=dict(journal=text), observed=str(bad), required='zero in every commodity'))
 
 
+def automated(ctx, res, rng, n):
+    """journals with automated transactions (the C16 generator: rules of real, [balanced] and (virtual) lines in every
+    order, balanced or not).  Judged on ledger's own rows alone: whatever a rule added, the postings of an ADMITTED
+    transaction that must balance sum to zero at display precision, and a rejected one says so with a non-zero status.
+    (Which postings a rule generates is C16's subject and model; here only the admission rule.)"""
+    import importlib
+    c16 = importlib.import_module('props.c16')
+    for j in range(n):
+        items = c16.gen_journal(rng)
+        rows, rejected, st, text = c16.run_clean(ctx, res, 'C01_auto_%d.dat' % (j % 4), items, True)
+        res.evaluations += 1
+        res.count('automated:journals')
+        if rejected and st == 0:
+            res.violations.append(dict(key='unbalanced-exit-zero', desc='exit status 0 although a transaction was rejected', case=dict(journal=text),
+                                       observed='status 0', required='non-zero status'))
+        for i, got in rows.items():
+            if any(r['cost'] is None or r['amt'] is None for r in got):
+                continue
+            if any('~' in (r['cost'][0] or '') for r in got):
+                continue                       # lots: gain/loss postings are C01's main stream's business
+            tot = {}
+            for r in got:
+                if r['kind'] != 'v':
+                    tot[r['cost'][0]] = tot.get(r['cost'][0], 0) + r['cost'][1]
+            tot = {k: v for k, v in tot.items() if v != 0}
+            if any(r['generated'] for r in got):
+                res.nontrivial.add('auto:%d:%d:' % (j, i) + '|'.join(r['text'] for r in got))
+                res.count('automated:extended-transactions')
+            if c16.display_state(tot) == 'nonzero':
+                res.violations.append(dict(key='admitted-unbalanced:automated', desc='the postings that must balance of an admitted transaction (with the postings automated transactions added) sum to %s' % {k: str(v) for k, v in tot.items()},
+                                           case=dict(journal=text, xact=i), observed='accepted', required='zero at display precision, or Transaction does not balance'))
+
+
 def run(ctx, n_override=None):
     rng = ctx.rng
     res = lib.Result()
     res.rule = ('journals of 3-13 transactions drawn from: exactly balanced (1-3 commodities, costs @/@@, (virtual)/[balanced] '
                 'postings), off by >= 1 whole unit, off by a sub-display amount, residual at/just below/just above half a display '
                 'unit through an excess-precision cost, two-commodity implied-rate shapes, lot price vs sale price (gain/loss), one '
-                'elided amount; non-trivial = the property text determines accept/reject for it; distinct by rendered text')
+                'elided amount, commodity-less amounts, a (virtual) lot sale; plus journals with automated transactions (the C16 generator) judged on '
+                'the admitted rows alone; non-trivial = the property text determines accept/reject for it (or a rule extended the transaction); '
+                'distinct by rendered text')
     n = n_override or ctx.scale(260, 3500)
     for j in range(n):
         if rng.random() < 0.2:
@@ -125,6 +160,7 @@ def run(ctx, n_override=None):
         else:
             xs = gen_journal(rng)
         run_one(ctx, res, j, xs)
+    automated(ctx, res, rng, max(20, n // 4))
     return res
 
 
